@@ -581,10 +581,11 @@ func Run(e *Env, spec *Spec) int {
 			fatalErrs = append(fatalErrs, sr.err)
 		}
 		for _, c := range sr.crashes {
-			if c.Repro == 0 {
-				// did not reproduce alone: the process was poisoned by an earlier case or the
-				// environment killed it; report as a note, the case itself was re-run alone successfully.
-				m.Notes = append(m.Notes, fmt.Sprintf("worker %s/%d died at case %d %q but the case returns when run alone (%s)", sr.job.Harness, sr.shard, c.Idx, c.Desc, c.Sig))
+			if c.Repro < 3 {
+				// did not reproduce deterministically when run alone (3 attempts): the process was
+				// poisoned by an earlier case, the death depends on collector timing, or the
+				// environment killed it. Reported as a note, never as a violation.
+				m.Notes = append(m.Notes, fmt.Sprintf("worker %s/%d died at case %d %q; run alone the case died %d of 3 times (%s)", sr.job.Harness, sr.shard, c.Idx, c.Desc, c.Repro, c.Sig))
 				m.Counters["unreproduced_worker_deaths"]++
 				continue
 			}
